@@ -238,10 +238,11 @@ func HarnessC45Crash() {
 	c.fallbackFunc = func() *Config { fellBack = true; return &Config{AutoConfVersion: zzvFallbackVersion} }
 
 	var got *Config
+	var interrupted bool
 	if verifrt.Symbolic() {
-		got = zzvRunModel(c, earlier, gaps, cutOp, cutLen)
+		got, interrupted = zzvRunModel(c, earlier, gaps, cutOp, cutLen)
 	} else {
-		got = zzvRunNative(c, earlier, gaps, cutOp, cutLen)
+		got, interrupted = zzvRunNative(c, earlier, gaps, cutOp, cutLen)
 	}
 	newVer := int64(earlier + 1)
 	verifrt.Assert("C45.result-present", got != nil)
@@ -265,10 +266,13 @@ func HarnessC45Crash() {
 	if !fellBack {
 		verifrt.Assert("C45.result-is-new-or-newest-earlier", got.AutoConfVersion == newVer || (earlier >= 1 && got.AutoConfVersion == int64(earlier)))
 	}
+	if !interrupted {
+		verifrt.Assert("C45.completed-update-is-served", !fellBack && got.AutoConfVersion == newVer)
+	}
 	verifrt.Reach("end")
 }
 
-func zzvRunModel(c *Client, earlier int, gaps []int, cutOp, cutLen int) *Config {
+func zzvRunModel(c *Client, earlier int, gaps []int, cutOp, cutLen int) (*Config, bool) {
 	c.cacheDir = "/cache"
 	dir, err := c.getCacheDir()
 	if err != nil {
@@ -305,16 +309,16 @@ func zzvRunModel(c *Client, earlier int, gaps []int, cutOp, cutLen int) *Config 
 	zzvD.cutW = -1
 	zzvD.dead = false
 	c.cacheMu = sync.RWMutex{}
-	return c.GetCached()
+	return c.GetCached(), crashed
 }
 
 var errZzvRetry = errors.New("retry")
 
-func zzvRunNative(c *Client, earlier int, gaps []int, cutOp, cutLen int) *Config {
+func zzvRunNative(c *Client, earlier int, gaps []int, cutOp, cutLen int) (*Config, bool) {
 	for attempt := 0; ; attempt++ {
-		got, err := zzvRunNativeOnce(c, earlier, gaps, cutOp, cutLen)
+		got, interrupted, err := zzvRunNativeOnce(c, earlier, gaps, cutOp, cutLen)
 		if err == nil {
-			return got
+			return got, interrupted
 		}
 		if attempt > 5 {
 			panic(err)
@@ -326,7 +330,7 @@ func zzvRunNative(c *Client, earlier int, gaps []int, cutOp, cutLen int) *Config
 // asks for (relative to "now"); the interrupted update runs for real, under RLIMIT_FSIZE = t when the cut is in
 // the first data write (the configuration file), which makes the kernel stop that write after t bytes. Cuts in
 // later data writes only concern the metadata files, which GetCached never reads: the update then completes.
-func zzvRunNativeOnce(c *Client, earlier int, gaps []int, cutOp, cutLen int) (*Config, error) {
+func zzvRunNativeOnce(c *Client, earlier int, gaps []int, cutOp, cutLen int) (*Config, bool, error) {
 	tmp, err := os.MkdirTemp("", "zzvc45-")
 	if err != nil {
 		panic(err)
@@ -401,7 +405,7 @@ func zzvRunNativeOnce(c *Client, earlier int, gaps []int, cutOp, cutLen int) (*C
 		}
 	}
 	if time.Now().Unix() != base {
-		return nil, errZzvRetry // the interrupted update did not get the file name the scenario asks for
+		return nil, false, errZzvRetry // the interrupted update did not get the file name the scenario asks for
 	}
 	if cutInConfig && cutLen < len(body) && saveErr == nil {
 		panic("zzv: the size limit did not interrupt the write")
@@ -409,7 +413,9 @@ func zzvRunNativeOnce(c *Client, earlier int, gaps []int, cutOp, cutLen int) (*C
 	if saveErr == nil && !cutInConfig {
 		_ = c.cleanupOldVersions(dir)
 	}
-	return c.GetCached(), nil
+	// natively a cut in a later (metadata) write cannot be placed: the update completes, which the oracle
+	// treats like the interrupted case (new or newest earlier)
+	return c.GetCached(), saveErr != nil || cutOp < verifrt.Param("WRITES", 3), nil
 }
 
 var _ = json.Unmarshal
